@@ -235,7 +235,7 @@ PeekMap(st) == [x \in (1..NViews) \X Keys |-> IF x[1] \in Views THEN Peek(st, x[
 Record(o) == /\ op' = o            \* last conjunct of every action: lru' and bk' are determined
              /\ hist' = Append(hist, o)
              /\ conf' = conf
-             /\ pk' = PeekMap([lru |-> lru', bk |-> bk'])
+             /\ pk' = TLCEval(PeekMap([lru |-> lru', bk |-> bk']))   \* TLCEval: pk is outside the VIEW and would stay lazy
 
 Stored(w, ks, vals, ttl) ==      \* ghost update of a successful store of ks[j] -> vals[j]
   /\ last'    = [x \in DOMAIN last |-> IF x[1] = w /\ \E j \in 1..Len(ks) : ks[j] = x[2]
